@@ -6,6 +6,7 @@ import (
 	"crypto/sha256"
 	"crypto/x509"
 	"encoding/pem"
+	"fmt"
 	"math/big"
 	"sync"
 	"time"
@@ -384,4 +385,89 @@ func LyingNest(total, depth, lenOctets, slack, past int) []byte {
 		out = append(out, 0x41)
 	}
 	return out
+}
+
+// PadLists lengthens the list-valued parts of a certificate so that the slices a parser builds for them by
+// repeated append end up with spare capacity (3, 5, 6, 7 ... entries: len < cap): code that appends to such a
+// slice, or edits "its copy" in place, then writes into the certificate itself. Added entries are harmless,
+// well-formed and carry capital letters (so that normalising code has something to rewrite). variant 0 / 1 give
+// two different lengths. Reports whether anything could be padded.
+func (v *CertView) PadLists(variant int) bool {
+	notPow2 := func(n int) bool { return n >= 3 && n&(n-1) != 0 }
+	target := func(have int) int {
+		t := have + 1
+		for !notPow2(t) {
+			t++
+		}
+		if variant == 1 {
+			t++
+			for !notPow2(t) {
+				t++
+			}
+		}
+		return t
+	}
+	count := func(seq *dt.Node, class uint8, tag uint32) int {
+		n := 0
+		for _, c := range seq.Children {
+			if uint8(c.Class) == class && uint32(c.Tag) == tag {
+				n++
+			}
+		}
+		return n
+	}
+	// subjectAltName: dNSNames (and one more of each other arm that is already there)
+	san := ExtInner(v.Ext(OIDExtSAN...))
+	if san == nil {
+		v.SetExt(OIDExtSAN, false, dt.Seq())
+		san = ExtInner(v.Ext(OIDExtSAN...))
+	}
+	if san == nil {
+		return false
+	}
+	have := count(san, 2, 2)
+	for i := have; i < target(have); i++ {
+		san.Children = append(san.Children, GNDNS([]byte(fmt.Sprintf("Pad%d.Example.COM", i))))
+	}
+	for _, arm := range []struct {
+		tag uint32
+		mk  func(i int) *dt.Node
+	}{
+		{1, func(i int) *dt.Node { return GNEmail([]byte(fmt.Sprintf("Pad%d@Example.COM", i))) }},
+		{6, func(i int) *dt.Node { return GNURI([]byte(fmt.Sprintf("https://Pad%d.Example.COM/", i))) }},
+		{7, func(i int) *dt.Node { return GNIP([]byte{8, 8, 4, byte(i)}) }},
+	} {
+		if h := count(san, 2, arm.tag); h > 0 {
+			for i := h; i < target(h); i++ {
+				san.Children = append(san.Children, arm.mk(i))
+			}
+		}
+	}
+	// certificatePolicies and extKeyUsage, when present: unknown identifiers appended
+	if pol := ExtInner(v.Ext(OIDExtPolicies...)); pol != nil {
+		h := len(pol.Children)
+		for i := h; i < target(h); i++ {
+			pol.Children = append(pol.Children, dt.Seq(dt.OID(1, 3, 6, 1, 4, 1, 99999, 7, i)))
+		}
+	}
+	if eku := ExtInner(v.Ext(OIDExtEKU...)); eku != nil {
+		h := len(eku.Children)
+		for i := h; i < target(h); i++ {
+			eku.Children = append(eku.Children, dt.OID(1, 3, 6, 1, 4, 1, 99999, 8, i))
+		}
+	}
+	// subject: organizational units
+	subj := v.Subject()
+	h := 0
+	for _, rdn := range subj.Children {
+		for _, atv := range rdn.Children {
+			if len(atv.Children) == 2 && atv.Children[0].OIDEquals(OIDOU...) {
+				h++
+			}
+		}
+	}
+	for i := h; i < target(h); i++ {
+		subj.Children = append(subj.Children, dt.Set(ATV(OIDOU, 12, []byte(fmt.Sprintf("Pad Unit %d", i)))))
+	}
+	return true
 }
